@@ -29,7 +29,12 @@ class Conc:                      # concrete python value
 
 
 class Str:                       # the string under test (or an alias / str() of it)
-    pass
+    decoder_cls = None           # for a Token built around the string: the class of the decoder it consults
+
+
+class TokenStr(Str):
+    def __init__(self, decoder_cls):
+        self.decoder_cls = decoder_cls
 
 
 class Match:                     # "is not None" language of a variable (regex match, or value-or-None)
@@ -93,6 +98,28 @@ class Ctx:
         self.options = dict(options or {})
         self.memo = {}
         self.visited = []
+        self.subs = {}
+
+    def with_decoder(self, decoder_cls):
+        """The same pairing seen by an object that consults another decoder class."""
+        if decoder_cls is None or decoder_cls == self.decoder_cls:
+            return self
+        if decoder_cls not in self.subs:
+            c = Ctx(self.repo, self.grammar, decoder_cls, self.encoder_cls, self.width, self.options)
+            c.visited = self.visited
+            self.subs[decoder_cls] = c
+        return self.subs[decoder_cls]
+
+    def token_default_decoder(self):
+        """Class Token.__init__ instantiates when no decoder is passed (read from its AST)."""
+        init = self.repo.method("Token", "__init__")
+        for n in ast.walk(init):
+            if isinstance(n, ast.If) and ast.unparse(n.test) == "decoder is None":
+                for b in n.body:
+                    if isinstance(b, ast.Assign) and ast.unparse(b.targets[0]) == "self.decoder" and isinstance(b.value, ast.Call) \
+                            and isinstance(b.value.func, ast.Name):
+                        return b.value.func.id
+        raise Unsupported("cannot read the default decoder of Token.__init__")
 
 
 def resolve(ctx, cls, name, after=None):
@@ -373,7 +400,10 @@ class Eval:
             cls = "Token" if (isinstance(self.env.get("self"), Str) or recv != "self") else self.cls
             if resolve(self.ctx, cls, f.attr)[1] is None:
                 return None
-            res = run(cls, f.attr, self.ctx)
+            ctx = self.ctx
+            if recv_is_str and isinstance(self.env.get(f.value.id), TokenStr):
+                ctx = self.ctx.with_decoder(self.env[f.value.id].decoder_cls)
+            res = run(cls, f.attr, ctx)
         elif recv == "self.decoder":
             if resolve(self.ctx, self.ctx.decoder_cls, f.attr)[1] is None:
                 return None
@@ -438,7 +468,17 @@ class Eval:
                     self.env[t.id] = STR
                     return {"N": reach}
                 if isinstance(v, ast.Call) and isinstance(v.func, ast.Name) and v.func.id == "Token" and self.is_str(v.args[0]):
-                    self.env[t.id] = STR
+                    kw = {k.arg: ast.unparse(k.value) for k in v.keywords}
+                    if len(v.args) >= 3:
+                        kw.setdefault("decoder", ast.unparse(v.args[2]))
+                    d = kw.get("decoder")
+                    if d in ("self.decoder",):
+                        dcls = self.ctx.decoder_cls
+                    elif d is None or d == "None":
+                        dcls = self.ctx.token_default_decoder()
+                    else:
+                        raise Unsupported(f"Token(..., decoder={d})")
+                    self.env[t.id] = TokenStr(dcls)
                     return {"N": reach}
                 if isinstance(v, ast.Call) and isinstance(v.func, ast.Attribute) and v.func.attr == "fullmatch":
                     if ast.unparse(v.func.value) == "re":
